@@ -85,7 +85,7 @@ ImplEffs(effs, queue, w, used) ==
 \* kinds: "normal"; "exception" (an Exception subclass reaches _execute's handler); "sysexit";
 \*        "base" (other BaseException); per-mode flag: does building the feedback fail inside pedal?
 \* "closeOut": the program ends normally after CLOSING the stream it prints to (sys.stdout.close()); what it had
-\* printed is gone with the stream, nothing else is different
+\* printed before is still what it wrote (flag "closed_stream_loses_output": the text is gone with the stream)
 Kind(m) == CASE m \in {"normal", "closeOut"} -> "normal"
              [] m \in {"sysexit", "raiseSysExit"} -> "sysexit"
              [] m \in {"baseKbd", "baseGen", "baseCustom", "baseImport"} -> "base"
@@ -117,7 +117,7 @@ Exec(prog, kindOfEntry, inq) ==
         brokenNest == "shared_sleep_patcher" \in Flags /\ NCb(prog) > 0
         unmocked == handled /\ ~brokenNest
         \* append_output(share): raw += share; context.output = share; line view
-        share == IF prog.mode = "closeOut" THEN <<>> ELSE r.w
+        share == IF prog.mode = "closeOut" /\ "closed_stream_loses_output" \in Flags THEN <<>> ELSE r.w
         raw1 == IF unmocked THEN raw \o share ELSE raw
         addLines == IF "phantom_line" \in Flags THEN raw1 # <<>> ELSE share # <<>>
         lines1 == IF unmocked /\ addLines THEN lines \o LinesOf(share) ELSE lines
@@ -166,7 +166,7 @@ DoExec(prog, a) ==
     LET x == Exec(prog, a.op, IF Honoured(a) THEN a.xs ELSE inputs)
         \* ghost: what the student code really did, starting from the queue the caller asked for
         g0 == RunEffs(EffsOf(prog), IF a.op \in {"run_in", "call_in"} THEN a.xs ELSE q, <<>>, <<>>)
-        g == IF prog.mode = "closeOut" THEN [g0 EXCEPT !.w = <<>>] ELSE g0
+        g == g0
     IN /\ pTrace' = x.pTrace /\ pOut' = x.pOut /\ pSleep' = x.pSleep /\ pMods' = x.pMods /\ patches' = x.patches
        /\ stdouts' = x.stdouts /\ raw' = x.raw /\ lines' = x.lines /\ ctxs' = x.ctxs /\ inputs' = x.inputs
        /\ exc' = x.exc /\ fbs' = x.fbs /\ status' = x.status
